@@ -27,6 +27,15 @@ func randomNodeParams(rng *rand.Rand) nodetypes.Params {
 	p.VstorageThreshold = vth[rng.Intn(len(vth))]
 	off := []int64{1800, 20, 11}
 	p.OfflineTriggerHeight = off[rng.Intn(len(off))]
+	if rng.Intn(3) == 0 {
+		// fast-halving parameter sets: several halving ages are crossed within a few dozen blocks,
+		// below the baseline, with the APY formula near the age-dependent cap
+		big := []int64{10000000000000, 40000000000000, 150000000000000}
+		p.BlockReward = sdk.NewInt64Coin(Denom, big[rng.Intn(len(big))])
+		p.Baseline = sdk.NewInt64Coin(Denom, []int64{1000000000000000, 1}[rng.Intn(2)])
+		p.AnnualPercentageYield = []string{"48.000000000000000000", "500.000000000000000000", "3.000000000000000000"}[rng.Intn(3)]
+		p.HalvingPeriod = []int64{12, 100, 11}[rng.Intn(3)]
+	}
 	return p
 }
 
@@ -35,6 +44,9 @@ func runNodeHistory(r *Recorder, rng *rand.Rand, accts []*Account, nOps int) {
 	done := 0
 	created := map[string]bool{}
 	sizes := []uint64{1, 999999, 1000000, 1000001, 2500000, 5000000, 5000001, 12345678, 0, 1 << 63, 3000000, 7999999}
+	if c.App.NodeKeeper.GetParams(c.deliverCtx()).BlockReward.Amount.Int64() >= 10000000000000 {
+		sizes = append(sizes, 1000000000000000000, 100000000000000000, 1000000000000000000)
+	}
 	for done < nOps && c.Halted == "" {
 		r.BeginBlock()
 		per := 1 + rng.Intn(5)
